@@ -15,6 +15,9 @@ fn main() {
     let spec = CfgSpec::new(lay, opts);
     let root = std::path::PathBuf::from("/dev/shm/vdbg");
     fresh_root(&root);
+    if let Ok(ac) = std::env::var("VDBG_USER_AC") {
+        std::fs::write(autocorrect_file(&root), ac).unwrap();
+    }
     let sess = Sess::new(spec, &root).unwrap();
     let mut o = PhonOracle::new().unwrap();
     for text in &a[3..] {
